@@ -123,7 +123,9 @@ Terminates == <>(pc = "done")
 
 ---------------------------------------------------------------------------
 (* 3. case lattice                                                         *)
-Structures == {"generic", "singular", "nilpotent2", "nilpotent3", "jordan", "uppertri", "stiff", "oscillator"}
+\* "diagonal": exactly diagonal A with rates spread over three decades and one zero entry (uncoupled first-order systems, 1x1 blocks): the
+\* closed forms a shortcut would use for it cancel catastrophically in the second integral when |a h| is small
+Structures == {"generic", "singular", "nilpotent2", "nilpotent3", "jordan", "uppertri", "stiff", "oscillator", "diagonal"}
 \* norm classes ||A h||_1 as <<numerator, denominator>>, increasing; the getEPQ switch lies between classes 7 and 8
 NormClasses == << <<1, 1000000>>, <<1, 10000>>, <<1, 100>>, <<1, 10>>, <<1, 2>>, <<3, 2>>, <<2097, 1000>>,
                   <<2098, 1000>>, <<5, 1>>, <<30, 1>>, <<100, 1>>, <<1000, 1>> >>
